@@ -53,8 +53,13 @@ def parseFs (root : Bytes) (fl : CfgFlags) (s : String) : Option Fs :=
       some ((withParents fs p).set (rootCs ++ p) .dir)
     else match item.splitOn "=" with
       | [p, h] => do
-        let c ← parseContent h
         let pc := components (bytesOfString p)
+        -- `@name`: a symbolic link to a file of the same directory, named earlier in the spec (reads follow it)
+        let c ← if h.startsWith "@" then
+            (match fs.lookup (rootCs ++ pc.dropLast ++ [bytesOfString (h.drop 1).toString]) with
+             | some (.file c) => some c
+             | _ => none)
+          else parseContent h
         pure ((withParents fs pc).set (rootCs ++ pc) (.file c))
       | _ => none) (anc ++ base)
 
@@ -138,7 +143,9 @@ def reqLine (toks : List String) : String :=
   | _ => "bad-op"
 
 /-- an upload aborted by the client after `nblocks` full blocks: `abort <root> <flags> <fs> <wrq-hex> <nblocks>` -/
-def abortLine (toks : List String) : String :=
+def abortLine (toks0 : List String) : String :=
+  -- an optional 7th token (the text of the aborting ERROR packet) does not enter the model: any ERROR ends the transfer
+  let toks := if toks0.length = 7 then toks0.take 6 else toks0
   match toks with
   | ["abort", rootH, flags, fsS, dg, nb] =>
     match bytesOfHex rootH, bytesOfHex dg, nb.toNat? with
@@ -220,7 +227,7 @@ def multiLine (toks : List String) : String :=
       | none => "bad-op"
       | some fs0 =>
         let cls := if cfg.singlePort then "L" else "T"
-        let step (acc : Option (Fs × List String)) (spec : String) : Option (Fs × List String) := do
+        let one (acc : Option (Fs × List String)) (spec : String) : Option (Fs × List String) := do
           let (fs, outs) ← acc
           match spec.splitOn ":" with
           | ["d", name, b, w] =>
@@ -248,6 +255,11 @@ def multiLine (toks : List String) : String :=
           -- a stranger sending datagrams to another client's transfer endpoint: by `c12_frame` it changes nobody's outcome
           | ["x", _, _] => pure (fs, outs ++ ["x"])
           | _ => none
+        -- `a+b`: transfer a, then transfer b from the same endpoint: each yields its solo outcome
+        let step (acc : Option (Fs × List String)) (spec : String) : Option (Fs × List String) := do
+          let (fs, outs) ← acc
+          let (fs', subs) ← (spec.splitOn "+").foldl one (some (fs, []))
+          pure (fs', outs ++ ["|".intercalate subs])
         match clients.foldl step (some (fs0, [])) with
         | none => "bad-op"
         | some (fs, outs) =>
